@@ -1,4 +1,6 @@
-(* C12 -- name-based lookups are the first match of the enumerated attributes / namespaces.
+(* C12 -- name-based lookups are the first match of the enumerated attributes / namespaces.  The user_* theorems
+   (Proofs/ApiUserS7.v) chain this with the capstone: for a rendered S7 document each lookup on the k-th node returns what the
+   WRITTEN document says (first attribute with that expanded name, first binding of the in-scope list computed by Spec/Scope.v).
    Statements are pinned here (copied verbatim from the proof files by tools/pin_props.py);
    each is re-proved by `exact` and followed by Print Assumptions. *)
 From Coq Require Import Ascii String.
@@ -7,7 +9,112 @@ Import ListNotations.
 From RX Require Import Generated.
 From RX.Model Require Import Base CharClass Stream Tokenizer Doc Builder Parse Api.
 From RX.Proofs Require Import LookupProofs.
+From RX.Spec Require CstFull CstFullS6 CstFullS7.
+From RX.Proofs Require CstNsView ApiViewAcc ApiView ApiUserCore ApiUserAcc ApiUserS7.
 Open Scope N_scope.
+
+(* ---- Proofs/ApiUserS7.v ---- *)
+Module G0.
+Import RX.Spec.CstFull. Import RX.Spec.CstFullS6. Import RX.Spec.CstFullS7. Import RX.Proofs.CstNsView. Import RX.Proofs.ApiViewAcc. Import RX.Proofs.ApiView. Import RX.Proofs.ApiUserCore. Import RX.Proofs.ApiUserAcc. Import RX.Proofs.ApiUserS7.
+Theorem C12_user_tag_name :
+  forall (d : S7.doc) (opt : options) (doc : document),
+       s7_ok d opt ->
+       parse (S7.render d) opt = Ok doc ->
+       forall (k : nat) (ns : option Text.bytes) (local : Text.bytes)
+         (attrs : list (option Text.bytes * Text.bytes * Text.bytes)) (nss : list Scope.binding) 
+         (n : nat),
+       nth_error (S7.sem d) k = Some (CstNs.VElem ns local attrs nss n) ->
+       tag_name (S7.render d) doc (id_of k) = Ok (ns, local).
+Proof. exact user_tag_name. Qed.
+Print Assumptions C12_user_tag_name.
+
+Theorem C12_user_has_tag_name :
+  forall (d : S7.doc) (opt : options) (doc : document),
+       s7_ok d opt ->
+       parse (S7.render d) opt = Ok doc ->
+       forall (k : nat) (ns : option Text.bytes) (local : Text.bytes)
+         (attrs : list (option Text.bytes * Text.bytes * Text.bytes)) (nss : list Scope.binding) 
+         (n : nat),
+       nth_error (S7.sem d) k = Some (CstNs.VElem ns local attrs nss n) ->
+       forall name : option bytes * bytes,
+       has_tag_name (S7.render d) doc (id_of k) name =
+       Ok match fst name with
+          | Some _ => ename_eqb (ns, local) name
+          | None => bytes_eqb local (snd name)
+          end.
+Proof. exact user_has_tag_name. Qed.
+Print Assumptions C12_user_has_tag_name.
+
+Theorem C12_user_attribute :
+  forall (d : S7.doc) (opt : options) (doc : document),
+       s7_ok d opt ->
+       parse (S7.render d) opt = Ok doc ->
+       forall (k : nat) (ns : option Text.bytes) (local : Text.bytes)
+         (attrs : list (option Text.bytes * Text.bytes * Text.bytes)) (nss : list Scope.binding) 
+         (n : nat),
+       nth_error (S7.sem d) k = Some (CstNs.VElem ns local attrs nss n) ->
+       forall name : option bytes * bytes,
+       attribute (S7.render d) doc (id_of k) name = Ok (first_attr attrs name).
+Proof. exact user_attribute. Qed.
+Print Assumptions C12_user_attribute.
+
+Theorem C12_user_has_attribute :
+  forall (d : S7.doc) (opt : options) (doc : document),
+       s7_ok d opt ->
+       parse (S7.render d) opt = Ok doc ->
+       forall (k : nat) (ns : option Text.bytes) (local : Text.bytes)
+         (attrs : list (option Text.bytes * Text.bytes * Text.bytes)) (nss : list Scope.binding) 
+         (n : nat),
+       nth_error (S7.sem d) k = Some (CstNs.VElem ns local attrs nss n) ->
+       forall name : option bytes * bytes,
+       has_attribute (S7.render d) doc (id_of k) name =
+       Ok match first_attr attrs name with
+          | Some _ => true
+          | None => false
+          end.
+Proof. exact user_has_attribute. Qed.
+Print Assumptions C12_user_has_attribute.
+
+Theorem C12_user_lookup_namespace_uri :
+  forall (d : S7.doc) (opt : options) (doc : document),
+       s7_ok d opt ->
+       parse (S7.render d) opt = Ok doc ->
+       forall (k : nat) (ns : option Text.bytes) (local : Text.bytes)
+         (attrs : list (option Text.bytes * Text.bytes * Text.bytes)) (nss : list Scope.binding) 
+         (n : nat),
+       nth_error (S7.sem d) k = Some (CstNs.VElem ns local attrs nss n) ->
+       forall prefix : option bytes,
+       lookup_namespace_uri (S7.render d) doc (id_of k) prefix = Ok (Scope.lookup nss prefix).
+Proof. exact user_lookup_namespace_uri. Qed.
+Print Assumptions C12_user_lookup_namespace_uri.
+
+Theorem C12_user_default_namespace :
+  forall (d : S7.doc) (opt : options) (doc : document),
+       s7_ok d opt ->
+       parse (S7.render d) opt = Ok doc ->
+       forall (k : nat) (ns : option Text.bytes) (local : Text.bytes)
+         (attrs : list (option Text.bytes * Text.bytes * Text.bytes)) (nss : list Scope.binding) 
+         (n : nat),
+       nth_error (S7.sem d) k = Some (CstNs.VElem ns local attrs nss n) ->
+       default_namespace (S7.render d) doc (id_of k) = Ok (Scope.lookup nss None).
+Proof. exact user_default_namespace. Qed.
+Print Assumptions C12_user_default_namespace.
+
+Theorem C12_user_lookup_prefix :
+  forall (d : S7.doc) (opt : options) (doc : document),
+       s7_ok d opt ->
+       parse (S7.render d) opt = Ok doc ->
+       forall (k : nat) (ns : option Text.bytes) (local : Text.bytes)
+         (attrs : list (option Text.bytes * Text.bytes * Text.bytes)) (nss : list Scope.binding) 
+         (n : nat),
+       nth_error (S7.sem d) k = Some (CstNs.VElem ns local attrs nss n) ->
+       forall uri : bytes,
+       lookup_prefix (S7.render d) doc (id_of k) uri =
+       Ok (if bytes_eqb uri Scope.xml_uri then Some Scope.xml_prefix else first_prefix nss uri).
+Proof. exact user_lookup_prefix. Qed.
+Print Assumptions C12_user_lookup_prefix.
+
+End G0.
 
 (* ---- Proofs/LookupProofs.v ---- *)
 Theorem C12_attribute_node_first_match :
